@@ -34,7 +34,14 @@ type dictPair struct {
 
 func dictKeyPool(r *rand.Rand, i int) (kind, text string, mk func() jen.Code) {
 	id := func(s string) func() jen.Code { return func() jen.Code { return jen.Id(s) } }
-	switch r.Intn(16) {
+	switch r.Intn(18) {
+	case 16, 17: // a key containing a Dict whose value is a qualified identifier (alias order != path order)
+		ps := []string{"z.org/aaa", "a.org/zzz", "m.org/mmm", "b.org/yyy"}
+		p := ps[r.Intn(len(ps))]
+		s := fmt.Sprintf("Kq%d", r.Intn(3))
+		return "composite-dict-qual", "P{A: QQ." + s + "}", func() jen.Code {
+			return jen.Id("P").Values(jen.Dict{jen.Id("A"): jen.Qual(p, s)})
+		}
 	case 14, 15: // a key that itself contains a Dict (struct-valued map keys)
 		a, b := r.Intn(3), r.Intn(3)
 		return "composite-dict", fmt.Sprintf("P{X: %d, Y: %d}", a, b), func() jen.Code {
@@ -395,6 +402,43 @@ func c16Case(r *mon.Run, idx int64) {
 		}
 		if r.Verbose {
 			fmt.Printf("%s\n--- formatted ---\n%s\n--- problems ---\n%v\n", desc, outs[0], probs)
+		}
+	}
+	// two-phase: one key statement is extended in place after a first render with a File; the second render
+	// with the same File must equal a fresh build of the changed Dict
+	if ok && idx%5 == 0 && len(ps) >= 2 {
+		keys := make([]*jen.Statement, len(ps))
+		mk := func(extend bool) (jen.Dict, *jen.Statement) {
+			d := jen.Dict{}
+			var first *jen.Statement
+			for i, p := range ps {
+				k := jen.Add(p.mkKey())
+				if first == nil && p.keyText != "" && !p.valNull {
+					first = k
+					if extend {
+						k.Dot("lateq")
+					}
+				}
+				keys[i] = k
+				d[k] = p.mkVal()
+			}
+			return d, first
+		}
+		d1, k1 := mk(false)
+		if k1 != nil {
+			f1 := jen.NewFile("p")
+			f1.Var().Id("X").Op("=").Id("M").Values(d1)
+			renderFile(f1)
+			k1.Dot("lateq")
+			second, fail1 := renderFile(f1)
+			d2, _ := mk(true)
+			f2 := jen.NewFile("p")
+			f2.Var().Id("X").Op("=").Id("M").Values(d2)
+			want, fail2 := renderFile(f2)
+			if fail1 == "" && fail2 == "" && !bytes.Equal(second, want) {
+				r.Violate("dict-stale-key", c, "a key statement was extended (.lateq) after a first render; the second render with the same File differs from a fresh build\n%s\n--- second render ---\n%s\n--- fresh build ---\n%s", desc, second, want)
+			}
+			r.Count("two_phase_dicts", 1)
 		}
 	}
 	r.Eval(desc, nontriv >= 2)
